@@ -1226,4 +1226,57 @@ theorem fmtX16_isH16 (w : Nat) (h : w < 65536) : IsH16 (fmtX16 w) w := by
       simp [fmtX16, h1, h2, h3, hexFold, hexVal_hexDigit _ a1, hexVal_hexDigit _ a2, hexVal_hexDigit _ a3,
         hexVal_hexDigit _ m0]; omega
 
+/-- hex groups separated by ':' -/
+def joinX : List Nat → List Nat
+  | [] => []
+  | [w] => fmtX16 w
+  | w :: w' :: rest => fmtX16 w ++ 58 :: joinX (w' :: rest)
+
+theorem joinX_snoc (l : List Nat) (w : Nat) (h : l ≠ []) : joinX (l ++ [w]) = joinX l ++ 58 :: fmtX16 w := by
+  induction l with
+  | nil => exact absurd rfl h
+  | cons a t ih =>
+    cases t with
+    | nil => simp [joinX]
+    | cons b t' =>
+      have := ih (by simp)
+      simp only [List.cons_append] at this ⊢
+      simp [joinX, this]
+
+theorem hexSeq_joinX (l : List Nat) (h : l ≠ []) (hw : ∀ w ∈ l, w < 65536) :
+    HexSeq (joinX l) (l.flatMap wbytes) := by
+  induction l with
+  | nil => exact absurd rfl h
+  | cons a t ih =>
+    cases t with
+    | nil => simpa [joinX] using HexSeq.one (fmtX16_isH16 a (hw a (by simp)))
+    | cons b t' =>
+      have := HexSeq.cons (fmtX16_isH16 a (hw a (by simp))) (ih (by simp) (fun w hw' => hw w (by simp [hw'])))
+      simpa [joinX] using this
+
+theorem hexSeq_groupSeq {s bs : List Nat} (h : HexSeq s bs) : GroupSeq s bs := by
+  induction h with
+  | one h => exact GroupSeq.one h
+  | cons h _ ih => exact GroupSeq.cons h ih
+
+/-- the format loop when no zero run is compressed -/
+theorem fmt6Loop_norun (src ws : List Nat) (best : Run) (i : Nat) (tp : List Nat)
+    (hb : best.base = -1) (hlen : ws.length = 8) (hi : i ≤ 8) (htp : tp = joinX (ws.take i)) :
+    fmt6Loop src ws best i tp = .ok (joinX ws) := by
+  fun_induction fmt6Loop src ws best i tp
+  · rename_i hrun _; exact absurd hb hrun.1
+  · rename_i hv4; omega
+  · rename_i i tp h8 hrun hv4 ih
+    apply ih (by omega)
+    have hget : ws.getD i 0 = ws[i] := by simp [List.getD_eq_getElem?_getD, List.getElem?_eq_getElem (show i < ws.length by omega)]
+    rw [List.take_succ_eq_append_getElem (by omega), hget, htp]
+    by_cases h0 : i = 0
+    · subst h0; simp [colon, joinX]
+    · rw [joinX_snoc _ _ (by intro h'; have := congrArg List.length h'; simp [List.length_take, hlen] at this; omega)]
+      simp [colon, h0]
+  · rename_i i tp h8
+    have : i = 8 := by omega
+    subst this
+    rw [htp, List.take_of_length_le (by omega)]
+
 end UvModel.Inet
